@@ -61,6 +61,12 @@ def main():
             style.update(cfg.get('style_override') or {})
             run.case(R.jhash(ad, style), nontrivial(ad), {'seed': seed, 'style': style, 'features': R.ad_features(ad)},
                      lambda: check_generated(run, ad, style), {'kind': 'verilog-read', 'seed': seed, 'ad': ad, 'style': style})
+    if cfg.get('corners'):
+        for name, ad in R.corner_ads('verilog'):
+            for v in range(4):
+                style = V.make_style('corner', v)
+                run.case(R.jhash('corner', name, style), True, None, lambda: check_generated(run, ad, style),
+                         {'kind': 'verilog-read', 'corner': name, 'ad': ad, 'style': style})
     for z in cfg.get('files', []):
         run.case(R.jhash(os.path.basename(z)), True, {'file': os.path.basename(z)}, lambda: check_file(run, z),
                  {'kind': 'verilog-file', 'file': z}, limit=cfg.get('file_limit', 60))
